@@ -1177,3 +1177,130 @@ func TestGocvReplay(t *testing.T) {
 		},
 	})
 }
+
+// ---------------------------------------------------------------------------
+// driver: xpath.New / xpath.Make (C17) — the engine's locator table must exist from construction on: the token loop
+// hands every engine its locators (SetItemAwareLocator) before it evaluates a condition.
+
+func init() {
+	registerReplay(replayDriver{
+		modelFree: true,
+		name:      "pkg/expression/xpath: a new engine is given a locator",
+		match: func(ob *Oblig) bool {
+			return strings.HasPrefix(ob.Func, "pkg/expression/xpath.") &&
+				(ob.Class == "repinv" && strings.Contains(ob.Name, "itemAwareLocators") || strings.Contains(ob.Name, "the-locator-table-is-created-with-the-engine"))
+		},
+		build: func(ob *Oblig, m map[string]string) (string, string, bool) {
+			src := fmt.Sprintf(`package xpath
+
+import (
+	"context"
+	"testing"
+
+	"github.com/olive-io/bpmn/v2/pkg/data"
+)
+
+// generated by gocv for obligation %s
+func TestGocvReplay(t *testing.T) {
+	defer func() {
+		if r := recover(); r != nil {
+			t.Fatalf("a new XPath engine that is given a locator (as the token loop does before every condition): %%v", r)
+		}
+	}()
+	engine := New(context.Background())
+	engine.SetItemAwareLocator(data.LocatorObject, data.NewDataObjectContainer())
+}
+`, ob.Name)
+			return "pkg/expression/xpath", src, true
+		},
+	})
+}
+
+// ---------------------------------------------------------------------------
+// driver: (*flowTracker).run (C07) — the inclusive gateway's tracker subscribes to the instance's tracer when the
+// gateway is built and never gives the subscription back: once the gateway's loop has ended (cancellation) nobody reads
+// that channel, and the tracer blocks on it as soon as its ten slots are full.  400 parked tokens, cancel, and the
+// tracer must terminate.
+
+func init() {
+	registerReplay(replayDriver{
+		modelFree: true,
+		name:      "bpmn inclusive gateway: cancellation with many live tokens",
+		match: func(ob *Oblig) bool {
+			return strings.HasPrefix(ob.Func, "bpmn.(*flowTracker).run") && strings.Contains(ob.Name, "subscription-is-given-back")
+		},
+		build: func(ob *Oblig, m map[string]string) (string, string, bool) {
+			return ".", "// generated by gocv for obligation " + ob.Name + "\n" + trackerLeakTest, true
+		},
+	})
+}
+
+const trackerLeakTest = `package bpmn_test
+
+import (
+	"context"
+	"encoding/xml"
+	"strings"
+	"testing"
+	"time"
+
+	"github.com/olive-io/bpmn/schema"
+	"github.com/olive-io/bpmn/v2"
+	"github.com/olive-io/bpmn/v2/pkg/tracing"
+)
+
+const igXML = ` + "`" + `<?xml version="1.0" encoding="UTF-8"?>
+<bpmn:definitions xmlns:bpmn="http://www.omg.org/spec/BPMN/20100524/MODEL" xmlns:xsi="http://www.w3.org/2001/XMLSchema-instance" id="D" targetNamespace="http://bpmn.io/schema/bpmn">
+  <bpmn:process id="P" isExecutable="true">
+    <bpmn:startEvent id="s"><bpmn:outgoing>f0x</bpmn:outgoing></bpmn:startEvent>
+    <bpmn:USEGW id="ig"><bpmn:incoming>f0x</bpmn:incoming><bpmn:outgoing>g0</bpmn:outgoing></bpmn:USEGW>
+    <bpmn:sequenceFlow id="f0x" sourceRef="s" targetRef="ig" />
+    <bpmn:sequenceFlow id="g0" sourceRef="ig" targetRef="fork">GWCOND</bpmn:sequenceFlow>
+    <bpmn:parallelGateway id="fork"><bpmn:incoming>g0</bpmn:incoming><bpmn:outgoing>f0</bpmn:outgoing><bpmn:outgoing>f1</bpmn:outgoing><bpmn:outgoing>f2</bpmn:outgoing><bpmn:outgoing>f3</bpmn:outgoing><bpmn:outgoing>f4</bpmn:outgoing><bpmn:outgoing>f5</bpmn:outgoing><bpmn:outgoing>f6</bpmn:outgoing><bpmn:outgoing>f7</bpmn:outgoing><bpmn:outgoing>f8</bpmn:outgoing><bpmn:outgoing>f9</bpmn:outgoing><bpmn:outgoing>f10</bpmn:outgoing><bpmn:outgoing>f11</bpmn:outgoing><bpmn:outgoing>f12</bpmn:outgoing><bpmn:outgoing>f13</bpmn:outgoing><bpmn:outgoing>f14</bpmn:outgoing><bpmn:outgoing>f15</bpmn:outgoing><bpmn:outgoing>f16</bpmn:outgoing><bpmn:outgoing>f17</bpmn:outgoing><bpmn:outgoing>f18</bpmn:outgoing><bpmn:outgoing>f19</bpmn:outgoing><bpmn:outgoing>f20</bpmn:outgoing><bpmn:outgoing>f21</bpmn:outgoing><bpmn:outgoing>f22</bpmn:outgoing><bpmn:outgoing>f23</bpmn:outgoing><bpmn:outgoing>f24</bpmn:outgoing><bpmn:outgoing>f25</bpmn:outgoing><bpmn:outgoing>f26</bpmn:outgoing><bpmn:outgoing>f27</bpmn:outgoing><bpmn:outgoing>f28</bpmn:outgoing><bpmn:outgoing>f29</bpmn:outgoing><bpmn:outgoing>f30</bpmn:outgoing><bpmn:outgoing>f31</bpmn:outgoing><bpmn:outgoing>f32</bpmn:outgoing><bpmn:outgoing>f33</bpmn:outgoing><bpmn:outgoing>f34</bpmn:outgoing><bpmn:outgoing>f35</bpmn:outgoing><bpmn:outgoing>f36</bpmn:outgoing><bpmn:outgoing>f37</bpmn:outgoing><bpmn:outgoing>f38</bpmn:outgoing><bpmn:outgoing>f39</bpmn:outgoing><bpmn:outgoing>f40</bpmn:outgoing><bpmn:outgoing>f41</bpmn:outgoing><bpmn:outgoing>f42</bpmn:outgoing><bpmn:outgoing>f43</bpmn:outgoing><bpmn:outgoing>f44</bpmn:outgoing><bpmn:outgoing>f45</bpmn:outgoing><bpmn:outgoing>f46</bpmn:outgoing><bpmn:outgoing>f47</bpmn:outgoing><bpmn:outgoing>f48</bpmn:outgoing><bpmn:outgoing>f49</bpmn:outgoing><bpmn:outgoing>f50</bpmn:outgoing><bpmn:outgoing>f51</bpmn:outgoing><bpmn:outgoing>f52</bpmn:outgoing><bpmn:outgoing>f53</bpmn:outgoing><bpmn:outgoing>f54</bpmn:outgoing><bpmn:outgoing>f55</bpmn:outgoing><bpmn:outgoing>f56</bpmn:outgoing><bpmn:outgoing>f57</bpmn:outgoing><bpmn:outgoing>f58</bpmn:outgoing><bpmn:outgoing>f59</bpmn:outgoing><bpmn:outgoing>f60</bpmn:outgoing><bpmn:outgoing>f61</bpmn:outgoing><bpmn:outgoing>f62</bpmn:outgoing><bpmn:outgoing>f63</bpmn:outgoing><bpmn:outgoing>f64</bpmn:outgoing><bpmn:outgoing>f65</bpmn:outgoing><bpmn:outgoing>f66</bpmn:outgoing><bpmn:outgoing>f67</bpmn:outgoing><bpmn:outgoing>f68</bpmn:outgoing><bpmn:outgoing>f69</bpmn:outgoing><bpmn:outgoing>f70</bpmn:outgoing><bpmn:outgoing>f71</bpmn:outgoing><bpmn:outgoing>f72</bpmn:outgoing><bpmn:outgoing>f73</bpmn:outgoing><bpmn:outgoing>f74</bpmn:outgoing><bpmn:outgoing>f75</bpmn:outgoing><bpmn:outgoing>f76</bpmn:outgoing><bpmn:outgoing>f77</bpmn:outgoing><bpmn:outgoing>f78</bpmn:outgoing><bpmn:outgoing>f79</bpmn:outgoing><bpmn:outgoing>f80</bpmn:outgoing><bpmn:outgoing>f81</bpmn:outgoing><bpmn:outgoing>f82</bpmn:outgoing><bpmn:outgoing>f83</bpmn:outgoing><bpmn:outgoing>f84</bpmn:outgoing><bpmn:outgoing>f85</bpmn:outgoing><bpmn:outgoing>f86</bpmn:outgoing><bpmn:outgoing>f87</bpmn:outgoing><bpmn:outgoing>f88</bpmn:outgoing><bpmn:outgoing>f89</bpmn:outgoing><bpmn:outgoing>f90</bpmn:outgoing><bpmn:outgoing>f91</bpmn:outgoing><bpmn:outgoing>f92</bpmn:outgoing><bpmn:outgoing>f93</bpmn:outgoing><bpmn:outgoing>f94</bpmn:outgoing><bpmn:outgoing>f95</bpmn:outgoing><bpmn:outgoing>f96</bpmn:outgoing><bpmn:outgoing>f97</bpmn:outgoing><bpmn:outgoing>f98</bpmn:outgoing><bpmn:outgoing>f99</bpmn:outgoing><bpmn:outgoing>f100</bpmn:outgoing><bpmn:outgoing>f101</bpmn:outgoing><bpmn:outgoing>f102</bpmn:outgoing><bpmn:outgoing>f103</bpmn:outgoing><bpmn:outgoing>f104</bpmn:outgoing><bpmn:outgoing>f105</bpmn:outgoing><bpmn:outgoing>f106</bpmn:outgoing><bpmn:outgoing>f107</bpmn:outgoing><bpmn:outgoing>f108</bpmn:outgoing><bpmn:outgoing>f109</bpmn:outgoing><bpmn:outgoing>f110</bpmn:outgoing><bpmn:outgoing>f111</bpmn:outgoing><bpmn:outgoing>f112</bpmn:outgoing><bpmn:outgoing>f113</bpmn:outgoing><bpmn:outgoing>f114</bpmn:outgoing><bpmn:outgoing>f115</bpmn:outgoing><bpmn:outgoing>f116</bpmn:outgoing><bpmn:outgoing>f117</bpmn:outgoing><bpmn:outgoing>f118</bpmn:outgoing><bpmn:outgoing>f119</bpmn:outgoing><bpmn:outgoing>f120</bpmn:outgoing><bpmn:outgoing>f121</bpmn:outgoing><bpmn:outgoing>f122</bpmn:outgoing><bpmn:outgoing>f123</bpmn:outgoing><bpmn:outgoing>f124</bpmn:outgoing><bpmn:outgoing>f125</bpmn:outgoing><bpmn:outgoing>f126</bpmn:outgoing><bpmn:outgoing>f127</bpmn:outgoing><bpmn:outgoing>f128</bpmn:outgoing><bpmn:outgoing>f129</bpmn:outgoing><bpmn:outgoing>f130</bpmn:outgoing><bpmn:outgoing>f131</bpmn:outgoing><bpmn:outgoing>f132</bpmn:outgoing><bpmn:outgoing>f133</bpmn:outgoing><bpmn:outgoing>f134</bpmn:outgoing><bpmn:outgoing>f135</bpmn:outgoing><bpmn:outgoing>f136</bpmn:outgoing><bpmn:outgoing>f137</bpmn:outgoing><bpmn:outgoing>f138</bpmn:outgoing><bpmn:outgoing>f139</bpmn:outgoing><bpmn:outgoing>f140</bpmn:outgoing><bpmn:outgoing>f141</bpmn:outgoing><bpmn:outgoing>f142</bpmn:outgoing><bpmn:outgoing>f143</bpmn:outgoing><bpmn:outgoing>f144</bpmn:outgoing><bpmn:outgoing>f145</bpmn:outgoing><bpmn:outgoing>f146</bpmn:outgoing><bpmn:outgoing>f147</bpmn:outgoing><bpmn:outgoing>f148</bpmn:outgoing><bpmn:outgoing>f149</bpmn:outgoing><bpmn:outgoing>f150</bpmn:outgoing><bpmn:outgoing>f151</bpmn:outgoing><bpmn:outgoing>f152</bpmn:outgoing><bpmn:outgoing>f153</bpmn:outgoing><bpmn:outgoing>f154</bpmn:outgoing><bpmn:outgoing>f155</bpmn:outgoing><bpmn:outgoing>f156</bpmn:outgoing><bpmn:outgoing>f157</bpmn:outgoing><bpmn:outgoing>f158</bpmn:outgoing><bpmn:outgoing>f159</bpmn:outgoing><bpmn:outgoing>f160</bpmn:outgoing><bpmn:outgoing>f161</bpmn:outgoing><bpmn:outgoing>f162</bpmn:outgoing><bpmn:outgoing>f163</bpmn:outgoing><bpmn:outgoing>f164</bpmn:outgoing><bpmn:outgoing>f165</bpmn:outgoing><bpmn:outgoing>f166</bpmn:outgoing><bpmn:outgoing>f167</bpmn:outgoing><bpmn:outgoing>f168</bpmn:outgoing><bpmn:outgoing>f169</bpmn:outgoing><bpmn:outgoing>f170</bpmn:outgoing><bpmn:outgoing>f171</bpmn:outgoing><bpmn:outgoing>f172</bpmn:outgoing><bpmn:outgoing>f173</bpmn:outgoing><bpmn:outgoing>f174</bpmn:outgoing><bpmn:outgoing>f175</bpmn:outgoing><bpmn:outgoing>f176</bpmn:outgoing><bpmn:outgoing>f177</bpmn:outgoing><bpmn:outgoing>f178</bpmn:outgoing><bpmn:outgoing>f179</bpmn:outgoing><bpmn:outgoing>f180</bpmn:outgoing><bpmn:outgoing>f181</bpmn:outgoing><bpmn:outgoing>f182</bpmn:outgoing><bpmn:outgoing>f183</bpmn:outgoing><bpmn:outgoing>f184</bpmn:outgoing><bpmn:outgoing>f185</bpmn:outgoing><bpmn:outgoing>f186</bpmn:outgoing><bpmn:outgoing>f187</bpmn:outgoing><bpmn:outgoing>f188</bpmn:outgoing><bpmn:outgoing>f189</bpmn:outgoing><bpmn:outgoing>f190</bpmn:outgoing><bpmn:outgoing>f191</bpmn:outgoing><bpmn:outgoing>f192</bpmn:outgoing><bpmn:outgoing>f193</bpmn:outgoing><bpmn:outgoing>f194</bpmn:outgoing><bpmn:outgoing>f195</bpmn:outgoing><bpmn:outgoing>f196</bpmn:outgoing><bpmn:outgoing>f197</bpmn:outgoing><bpmn:outgoing>f198</bpmn:outgoing><bpmn:outgoing>f199</bpmn:outgoing><bpmn:outgoing>f200</bpmn:outgoing><bpmn:outgoing>f201</bpmn:outgoing><bpmn:outgoing>f202</bpmn:outgoing><bpmn:outgoing>f203</bpmn:outgoing><bpmn:outgoing>f204</bpmn:outgoing><bpmn:outgoing>f205</bpmn:outgoing><bpmn:outgoing>f206</bpmn:outgoing><bpmn:outgoing>f207</bpmn:outgoing><bpmn:outgoing>f208</bpmn:outgoing><bpmn:outgoing>f209</bpmn:outgoing><bpmn:outgoing>f210</bpmn:outgoing><bpmn:outgoing>f211</bpmn:outgoing><bpmn:outgoing>f212</bpmn:outgoing><bpmn:outgoing>f213</bpmn:outgoing><bpmn:outgoing>f214</bpmn:outgoing><bpmn:outgoing>f215</bpmn:outgoing><bpmn:outgoing>f216</bpmn:outgoing><bpmn:outgoing>f217</bpmn:outgoing><bpmn:outgoing>f218</bpmn:outgoing><bpmn:outgoing>f219</bpmn:outgoing><bpmn:outgoing>f220</bpmn:outgoing><bpmn:outgoing>f221</bpmn:outgoing><bpmn:outgoing>f222</bpmn:outgoing><bpmn:outgoing>f223</bpmn:outgoing><bpmn:outgoing>f224</bpmn:outgoing><bpmn:outgoing>f225</bpmn:outgoing><bpmn:outgoing>f226</bpmn:outgoing><bpmn:outgoing>f227</bpmn:outgoing><bpmn:outgoing>f228</bpmn:outgoing><bpmn:outgoing>f229</bpmn:outgoing><bpmn:outgoing>f230</bpmn:outgoing><bpmn:outgoing>f231</bpmn:outgoing><bpmn:outgoing>f232</bpmn:outgoing><bpmn:outgoing>f233</bpmn:outgoing><bpmn:outgoing>f234</bpmn:outgoing><bpmn:outgoing>f235</bpmn:outgoing><bpmn:outgoing>f236</bpmn:outgoing><bpmn:outgoing>f237</bpmn:outgoing><bpmn:outgoing>f238</bpmn:outgoing><bpmn:outgoing>f239</bpmn:outgoing><bpmn:outgoing>f240</bpmn:outgoing><bpmn:outgoing>f241</bpmn:outgoing><bpmn:outgoing>f242</bpmn:outgoing><bpmn:outgoing>f243</bpmn:outgoing><bpmn:outgoing>f244</bpmn:outgoing><bpmn:outgoing>f245</bpmn:outgoing><bpmn:outgoing>f246</bpmn:outgoing><bpmn:outgoing>f247</bpmn:outgoing><bpmn:outgoing>f248</bpmn:outgoing><bpmn:outgoing>f249</bpmn:outgoing><bpmn:outgoing>f250</bpmn:outgoing><bpmn:outgoing>f251</bpmn:outgoing><bpmn:outgoing>f252</bpmn:outgoing><bpmn:outgoing>f253</bpmn:outgoing><bpmn:outgoing>f254</bpmn:outgoing><bpmn:outgoing>f255</bpmn:outgoing><bpmn:outgoing>f256</bpmn:outgoing><bpmn:outgoing>f257</bpmn:outgoing><bpmn:outgoing>f258</bpmn:outgoing><bpmn:outgoing>f259</bpmn:outgoing><bpmn:outgoing>f260</bpmn:outgoing><bpmn:outgoing>f261</bpmn:outgoing><bpmn:outgoing>f262</bpmn:outgoing><bpmn:outgoing>f263</bpmn:outgoing><bpmn:outgoing>f264</bpmn:outgoing><bpmn:outgoing>f265</bpmn:outgoing><bpmn:outgoing>f266</bpmn:outgoing><bpmn:outgoing>f267</bpmn:outgoing><bpmn:outgoing>f268</bpmn:outgoing><bpmn:outgoing>f269</bpmn:outgoing><bpmn:outgoing>f270</bpmn:outgoing><bpmn:outgoing>f271</bpmn:outgoing><bpmn:outgoing>f272</bpmn:outgoing><bpmn:outgoing>f273</bpmn:outgoing><bpmn:outgoing>f274</bpmn:outgoing><bpmn:outgoing>f275</bpmn:outgoing><bpmn:outgoing>f276</bpmn:outgoing><bpmn:outgoing>f277</bpmn:outgoing><bpmn:outgoing>f278</bpmn:outgoing><bpmn:outgoing>f279</bpmn:outgoing><bpmn:outgoing>f280</bpmn:outgoing><bpmn:outgoing>f281</bpmn:outgoing><bpmn:outgoing>f282</bpmn:outgoing><bpmn:outgoing>f283</bpmn:outgoing><bpmn:outgoing>f284</bpmn:outgoing><bpmn:outgoing>f285</bpmn:outgoing><bpmn:outgoing>f286</bpmn:outgoing><bpmn:outgoing>f287</bpmn:outgoing><bpmn:outgoing>f288</bpmn:outgoing><bpmn:outgoing>f289</bpmn:outgoing><bpmn:outgoing>f290</bpmn:outgoing><bpmn:outgoing>f291</bpmn:outgoing><bpmn:outgoing>f292</bpmn:outgoing><bpmn:outgoing>f293</bpmn:outgoing><bpmn:outgoing>f294</bpmn:outgoing><bpmn:outgoing>f295</bpmn:outgoing><bpmn:outgoing>f296</bpmn:outgoing><bpmn:outgoing>f297</bpmn:outgoing><bpmn:outgoing>f298</bpmn:outgoing><bpmn:outgoing>f299</bpmn:outgoing><bpmn:outgoing>f300</bpmn:outgoing><bpmn:outgoing>f301</bpmn:outgoing><bpmn:outgoing>f302</bpmn:outgoing><bpmn:outgoing>f303</bpmn:outgoing><bpmn:outgoing>f304</bpmn:outgoing><bpmn:outgoing>f305</bpmn:outgoing><bpmn:outgoing>f306</bpmn:outgoing><bpmn:outgoing>f307</bpmn:outgoing><bpmn:outgoing>f308</bpmn:outgoing><bpmn:outgoing>f309</bpmn:outgoing><bpmn:outgoing>f310</bpmn:outgoing><bpmn:outgoing>f311</bpmn:outgoing><bpmn:outgoing>f312</bpmn:outgoing><bpmn:outgoing>f313</bpmn:outgoing><bpmn:outgoing>f314</bpmn:outgoing><bpmn:outgoing>f315</bpmn:outgoing><bpmn:outgoing>f316</bpmn:outgoing><bpmn:outgoing>f317</bpmn:outgoing><bpmn:outgoing>f318</bpmn:outgoing><bpmn:outgoing>f319</bpmn:outgoing><bpmn:outgoing>f320</bpmn:outgoing><bpmn:outgoing>f321</bpmn:outgoing><bpmn:outgoing>f322</bpmn:outgoing><bpmn:outgoing>f323</bpmn:outgoing><bpmn:outgoing>f324</bpmn:outgoing><bpmn:outgoing>f325</bpmn:outgoing><bpmn:outgoing>f326</bpmn:outgoing><bpmn:outgoing>f327</bpmn:outgoing><bpmn:outgoing>f328</bpmn:outgoing><bpmn:outgoing>f329</bpmn:outgoing><bpmn:outgoing>f330</bpmn:outgoing><bpmn:outgoing>f331</bpmn:outgoing><bpmn:outgoing>f332</bpmn:outgoing><bpmn:outgoing>f333</bpmn:outgoing><bpmn:outgoing>f334</bpmn:outgoing><bpmn:outgoing>f335</bpmn:outgoing><bpmn:outgoing>f336</bpmn:outgoing><bpmn:outgoing>f337</bpmn:outgoing><bpmn:outgoing>f338</bpmn:outgoing><bpmn:outgoing>f339</bpmn:outgoing><bpmn:outgoing>f340</bpmn:outgoing><bpmn:outgoing>f341</bpmn:outgoing><bpmn:outgoing>f342</bpmn:outgoing><bpmn:outgoing>f343</bpmn:outgoing><bpmn:outgoing>f344</bpmn:outgoing><bpmn:outgoing>f345</bpmn:outgoing><bpmn:outgoing>f346</bpmn:outgoing><bpmn:outgoing>f347</bpmn:outgoing><bpmn:outgoing>f348</bpmn:outgoing><bpmn:outgoing>f349</bpmn:outgoing><bpmn:outgoing>f350</bpmn:outgoing><bpmn:outgoing>f351</bpmn:outgoing><bpmn:outgoing>f352</bpmn:outgoing><bpmn:outgoing>f353</bpmn:outgoing><bpmn:outgoing>f354</bpmn:outgoing><bpmn:outgoing>f355</bpmn:outgoing><bpmn:outgoing>f356</bpmn:outgoing><bpmn:outgoing>f357</bpmn:outgoing><bpmn:outgoing>f358</bpmn:outgoing><bpmn:outgoing>f359</bpmn:outgoing><bpmn:outgoing>f360</bpmn:outgoing><bpmn:outgoing>f361</bpmn:outgoing><bpmn:outgoing>f362</bpmn:outgoing><bpmn:outgoing>f363</bpmn:outgoing><bpmn:outgoing>f364</bpmn:outgoing><bpmn:outgoing>f365</bpmn:outgoing><bpmn:outgoing>f366</bpmn:outgoing><bpmn:outgoing>f367</bpmn:outgoing><bpmn:outgoing>f368</bpmn:outgoing><bpmn:outgoing>f369</bpmn:outgoing><bpmn:outgoing>f370</bpmn:outgoing><bpmn:outgoing>f371</bpmn:outgoing><bpmn:outgoing>f372</bpmn:outgoing><bpmn:outgoing>f373</bpmn:outgoing><bpmn:outgoing>f374</bpmn:outgoing><bpmn:outgoing>f375</bpmn:outgoing><bpmn:outgoing>f376</bpmn:outgoing><bpmn:outgoing>f377</bpmn:outgoing><bpmn:outgoing>f378</bpmn:outgoing><bpmn:outgoing>f379</bpmn:outgoing><bpmn:outgoing>f380</bpmn:outgoing><bpmn:outgoing>f381</bpmn:outgoing><bpmn:outgoing>f382</bpmn:outgoing><bpmn:outgoing>f383</bpmn:outgoing><bpmn:outgoing>f384</bpmn:outgoing><bpmn:outgoing>f385</bpmn:outgoing><bpmn:outgoing>f386</bpmn:outgoing><bpmn:outgoing>f387</bpmn:outgoing><bpmn:outgoing>f388</bpmn:outgoing><bpmn:outgoing>f389</bpmn:outgoing><bpmn:outgoing>f390</bpmn:outgoing><bpmn:outgoing>f391</bpmn:outgoing><bpmn:outgoing>f392</bpmn:outgoing><bpmn:outgoing>f393</bpmn:outgoing><bpmn:outgoing>f394</bpmn:outgoing><bpmn:outgoing>f395</bpmn:outgoing><bpmn:outgoing>f396</bpmn:outgoing><bpmn:outgoing>f397</bpmn:outgoing><bpmn:outgoing>f398</bpmn:outgoing><bpmn:outgoing>f399</bpmn:outgoing></bpmn:parallelGateway>
+    <bpmn:task id="t0"><bpmn:incoming>f0</bpmn:incoming></bpmn:task><bpmn:sequenceFlow id="f0" sourceRef="fork" targetRef="t0" /><bpmn:task id="t1"><bpmn:incoming>f1</bpmn:incoming></bpmn:task><bpmn:sequenceFlow id="f1" sourceRef="fork" targetRef="t1" /><bpmn:task id="t2"><bpmn:incoming>f2</bpmn:incoming></bpmn:task><bpmn:sequenceFlow id="f2" sourceRef="fork" targetRef="t2" /><bpmn:task id="t3"><bpmn:incoming>f3</bpmn:incoming></bpmn:task><bpmn:sequenceFlow id="f3" sourceRef="fork" targetRef="t3" /><bpmn:task id="t4"><bpmn:incoming>f4</bpmn:incoming></bpmn:task><bpmn:sequenceFlow id="f4" sourceRef="fork" targetRef="t4" /><bpmn:task id="t5"><bpmn:incoming>f5</bpmn:incoming></bpmn:task><bpmn:sequenceFlow id="f5" sourceRef="fork" targetRef="t5" /><bpmn:task id="t6"><bpmn:incoming>f6</bpmn:incoming></bpmn:task><bpmn:sequenceFlow id="f6" sourceRef="fork" targetRef="t6" /><bpmn:task id="t7"><bpmn:incoming>f7</bpmn:incoming></bpmn:task><bpmn:sequenceFlow id="f7" sourceRef="fork" targetRef="t7" /><bpmn:task id="t8"><bpmn:incoming>f8</bpmn:incoming></bpmn:task><bpmn:sequenceFlow id="f8" sourceRef="fork" targetRef="t8" /><bpmn:task id="t9"><bpmn:incoming>f9</bpmn:incoming></bpmn:task><bpmn:sequenceFlow id="f9" sourceRef="fork" targetRef="t9" /><bpmn:task id="t10"><bpmn:incoming>f10</bpmn:incoming></bpmn:task><bpmn:sequenceFlow id="f10" sourceRef="fork" targetRef="t10" /><bpmn:task id="t11"><bpmn:incoming>f11</bpmn:incoming></bpmn:task><bpmn:sequenceFlow id="f11" sourceRef="fork" targetRef="t11" /><bpmn:task id="t12"><bpmn:incoming>f12</bpmn:incoming></bpmn:task><bpmn:sequenceFlow id="f12" sourceRef="fork" targetRef="t12" /><bpmn:task id="t13"><bpmn:incoming>f13</bpmn:incoming></bpmn:task><bpmn:sequenceFlow id="f13" sourceRef="fork" targetRef="t13" /><bpmn:task id="t14"><bpmn:incoming>f14</bpmn:incoming></bpmn:task><bpmn:sequenceFlow id="f14" sourceRef="fork" targetRef="t14" /><bpmn:task id="t15"><bpmn:incoming>f15</bpmn:incoming></bpmn:task><bpmn:sequenceFlow id="f15" sourceRef="fork" targetRef="t15" /><bpmn:task id="t16"><bpmn:incoming>f16</bpmn:incoming></bpmn:task><bpmn:sequenceFlow id="f16" sourceRef="fork" targetRef="t16" /><bpmn:task id="t17"><bpmn:incoming>f17</bpmn:incoming></bpmn:task><bpmn:sequenceFlow id="f17" sourceRef="fork" targetRef="t17" /><bpmn:task id="t18"><bpmn:incoming>f18</bpmn:incoming></bpmn:task><bpmn:sequenceFlow id="f18" sourceRef="fork" targetRef="t18" /><bpmn:task id="t19"><bpmn:incoming>f19</bpmn:incoming></bpmn:task><bpmn:sequenceFlow id="f19" sourceRef="fork" targetRef="t19" /><bpmn:task id="t20"><bpmn:incoming>f20</bpmn:incoming></bpmn:task><bpmn:sequenceFlow id="f20" sourceRef="fork" targetRef="t20" /><bpmn:task id="t21"><bpmn:incoming>f21</bpmn:incoming></bpmn:task><bpmn:sequenceFlow id="f21" sourceRef="fork" targetRef="t21" /><bpmn:task id="t22"><bpmn:incoming>f22</bpmn:incoming></bpmn:task><bpmn:sequenceFlow id="f22" sourceRef="fork" targetRef="t22" /><bpmn:task id="t23"><bpmn:incoming>f23</bpmn:incoming></bpmn:task><bpmn:sequenceFlow id="f23" sourceRef="fork" targetRef="t23" /><bpmn:task id="t24"><bpmn:incoming>f24</bpmn:incoming></bpmn:task><bpmn:sequenceFlow id="f24" sourceRef="fork" targetRef="t24" /><bpmn:task id="t25"><bpmn:incoming>f25</bpmn:incoming></bpmn:task><bpmn:sequenceFlow id="f25" sourceRef="fork" targetRef="t25" /><bpmn:task id="t26"><bpmn:incoming>f26</bpmn:incoming></bpmn:task><bpmn:sequenceFlow id="f26" sourceRef="fork" targetRef="t26" /><bpmn:task id="t27"><bpmn:incoming>f27</bpmn:incoming></bpmn:task><bpmn:sequenceFlow id="f27" sourceRef="fork" targetRef="t27" /><bpmn:task id="t28"><bpmn:incoming>f28</bpmn:incoming></bpmn:task><bpmn:sequenceFlow id="f28" sourceRef="fork" targetRef="t28" /><bpmn:task id="t29"><bpmn:incoming>f29</bpmn:incoming></bpmn:task><bpmn:sequenceFlow id="f29" sourceRef="fork" targetRef="t29" /><bpmn:task id="t30"><bpmn:incoming>f30</bpmn:incoming></bpmn:task><bpmn:sequenceFlow id="f30" sourceRef="fork" targetRef="t30" /><bpmn:task id="t31"><bpmn:incoming>f31</bpmn:incoming></bpmn:task><bpmn:sequenceFlow id="f31" sourceRef="fork" targetRef="t31" /><bpmn:task id="t32"><bpmn:incoming>f32</bpmn:incoming></bpmn:task><bpmn:sequenceFlow id="f32" sourceRef="fork" targetRef="t32" /><bpmn:task id="t33"><bpmn:incoming>f33</bpmn:incoming></bpmn:task><bpmn:sequenceFlow id="f33" sourceRef="fork" targetRef="t33" /><bpmn:task id="t34"><bpmn:incoming>f34</bpmn:incoming></bpmn:task><bpmn:sequenceFlow id="f34" sourceRef="fork" targetRef="t34" /><bpmn:task id="t35"><bpmn:incoming>f35</bpmn:incoming></bpmn:task><bpmn:sequenceFlow id="f35" sourceRef="fork" targetRef="t35" /><bpmn:task id="t36"><bpmn:incoming>f36</bpmn:incoming></bpmn:task><bpmn:sequenceFlow id="f36" sourceRef="fork" targetRef="t36" /><bpmn:task id="t37"><bpmn:incoming>f37</bpmn:incoming></bpmn:task><bpmn:sequenceFlow id="f37" sourceRef="fork" targetRef="t37" /><bpmn:task id="t38"><bpmn:incoming>f38</bpmn:incoming></bpmn:task><bpmn:sequenceFlow id="f38" sourceRef="fork" targetRef="t38" /><bpmn:task id="t39"><bpmn:incoming>f39</bpmn:incoming></bpmn:task><bpmn:sequenceFlow id="f39" sourceRef="fork" targetRef="t39" /><bpmn:task id="t40"><bpmn:incoming>f40</bpmn:incoming></bpmn:task><bpmn:sequenceFlow id="f40" sourceRef="fork" targetRef="t40" /><bpmn:task id="t41"><bpmn:incoming>f41</bpmn:incoming></bpmn:task><bpmn:sequenceFlow id="f41" sourceRef="fork" targetRef="t41" /><bpmn:task id="t42"><bpmn:incoming>f42</bpmn:incoming></bpmn:task><bpmn:sequenceFlow id="f42" sourceRef="fork" targetRef="t42" /><bpmn:task id="t43"><bpmn:incoming>f43</bpmn:incoming></bpmn:task><bpmn:sequenceFlow id="f43" sourceRef="fork" targetRef="t43" /><bpmn:task id="t44"><bpmn:incoming>f44</bpmn:incoming></bpmn:task><bpmn:sequenceFlow id="f44" sourceRef="fork" targetRef="t44" /><bpmn:task id="t45"><bpmn:incoming>f45</bpmn:incoming></bpmn:task><bpmn:sequenceFlow id="f45" sourceRef="fork" targetRef="t45" /><bpmn:task id="t46"><bpmn:incoming>f46</bpmn:incoming></bpmn:task><bpmn:sequenceFlow id="f46" sourceRef="fork" targetRef="t46" /><bpmn:task id="t47"><bpmn:incoming>f47</bpmn:incoming></bpmn:task><bpmn:sequenceFlow id="f47" sourceRef="fork" targetRef="t47" /><bpmn:task id="t48"><bpmn:incoming>f48</bpmn:incoming></bpmn:task><bpmn:sequenceFlow id="f48" sourceRef="fork" targetRef="t48" /><bpmn:task id="t49"><bpmn:incoming>f49</bpmn:incoming></bpmn:task><bpmn:sequenceFlow id="f49" sourceRef="fork" targetRef="t49" /><bpmn:task id="t50"><bpmn:incoming>f50</bpmn:incoming></bpmn:task><bpmn:sequenceFlow id="f50" sourceRef="fork" targetRef="t50" /><bpmn:task id="t51"><bpmn:incoming>f51</bpmn:incoming></bpmn:task><bpmn:sequenceFlow id="f51" sourceRef="fork" targetRef="t51" /><bpmn:task id="t52"><bpmn:incoming>f52</bpmn:incoming></bpmn:task><bpmn:sequenceFlow id="f52" sourceRef="fork" targetRef="t52" /><bpmn:task id="t53"><bpmn:incoming>f53</bpmn:incoming></bpmn:task><bpmn:sequenceFlow id="f53" sourceRef="fork" targetRef="t53" /><bpmn:task id="t54"><bpmn:incoming>f54</bpmn:incoming></bpmn:task><bpmn:sequenceFlow id="f54" sourceRef="fork" targetRef="t54" /><bpmn:task id="t55"><bpmn:incoming>f55</bpmn:incoming></bpmn:task><bpmn:sequenceFlow id="f55" sourceRef="fork" targetRef="t55" /><bpmn:task id="t56"><bpmn:incoming>f56</bpmn:incoming></bpmn:task><bpmn:sequenceFlow id="f56" sourceRef="fork" targetRef="t56" /><bpmn:task id="t57"><bpmn:incoming>f57</bpmn:incoming></bpmn:task><bpmn:sequenceFlow id="f57" sourceRef="fork" targetRef="t57" /><bpmn:task id="t58"><bpmn:incoming>f58</bpmn:incoming></bpmn:task><bpmn:sequenceFlow id="f58" sourceRef="fork" targetRef="t58" /><bpmn:task id="t59"><bpmn:incoming>f59</bpmn:incoming></bpmn:task><bpmn:sequenceFlow id="f59" sourceRef="fork" targetRef="t59" /><bpmn:task id="t60"><bpmn:incoming>f60</bpmn:incoming></bpmn:task><bpmn:sequenceFlow id="f60" sourceRef="fork" targetRef="t60" /><bpmn:task id="t61"><bpmn:incoming>f61</bpmn:incoming></bpmn:task><bpmn:sequenceFlow id="f61" sourceRef="fork" targetRef="t61" /><bpmn:task id="t62"><bpmn:incoming>f62</bpmn:incoming></bpmn:task><bpmn:sequenceFlow id="f62" sourceRef="fork" targetRef="t62" /><bpmn:task id="t63"><bpmn:incoming>f63</bpmn:incoming></bpmn:task><bpmn:sequenceFlow id="f63" sourceRef="fork" targetRef="t63" /><bpmn:task id="t64"><bpmn:incoming>f64</bpmn:incoming></bpmn:task><bpmn:sequenceFlow id="f64" sourceRef="fork" targetRef="t64" /><bpmn:task id="t65"><bpmn:incoming>f65</bpmn:incoming></bpmn:task><bpmn:sequenceFlow id="f65" sourceRef="fork" targetRef="t65" /><bpmn:task id="t66"><bpmn:incoming>f66</bpmn:incoming></bpmn:task><bpmn:sequenceFlow id="f66" sourceRef="fork" targetRef="t66" /><bpmn:task id="t67"><bpmn:incoming>f67</bpmn:incoming></bpmn:task><bpmn:sequenceFlow id="f67" sourceRef="fork" targetRef="t67" /><bpmn:task id="t68"><bpmn:incoming>f68</bpmn:incoming></bpmn:task><bpmn:sequenceFlow id="f68" sourceRef="fork" targetRef="t68" /><bpmn:task id="t69"><bpmn:incoming>f69</bpmn:incoming></bpmn:task><bpmn:sequenceFlow id="f69" sourceRef="fork" targetRef="t69" /><bpmn:task id="t70"><bpmn:incoming>f70</bpmn:incoming></bpmn:task><bpmn:sequenceFlow id="f70" sourceRef="fork" targetRef="t70" /><bpmn:task id="t71"><bpmn:incoming>f71</bpmn:incoming></bpmn:task><bpmn:sequenceFlow id="f71" sourceRef="fork" targetRef="t71" /><bpmn:task id="t72"><bpmn:incoming>f72</bpmn:incoming></bpmn:task><bpmn:sequenceFlow id="f72" sourceRef="fork" targetRef="t72" /><bpmn:task id="t73"><bpmn:incoming>f73</bpmn:incoming></bpmn:task><bpmn:sequenceFlow id="f73" sourceRef="fork" targetRef="t73" /><bpmn:task id="t74"><bpmn:incoming>f74</bpmn:incoming></bpmn:task><bpmn:sequenceFlow id="f74" sourceRef="fork" targetRef="t74" /><bpmn:task id="t75"><bpmn:incoming>f75</bpmn:incoming></bpmn:task><bpmn:sequenceFlow id="f75" sourceRef="fork" targetRef="t75" /><bpmn:task id="t76"><bpmn:incoming>f76</bpmn:incoming></bpmn:task><bpmn:sequenceFlow id="f76" sourceRef="fork" targetRef="t76" /><bpmn:task id="t77"><bpmn:incoming>f77</bpmn:incoming></bpmn:task><bpmn:sequenceFlow id="f77" sourceRef="fork" targetRef="t77" /><bpmn:task id="t78"><bpmn:incoming>f78</bpmn:incoming></bpmn:task><bpmn:sequenceFlow id="f78" sourceRef="fork" targetRef="t78" /><bpmn:task id="t79"><bpmn:incoming>f79</bpmn:incoming></bpmn:task><bpmn:sequenceFlow id="f79" sourceRef="fork" targetRef="t79" /><bpmn:task id="t80"><bpmn:incoming>f80</bpmn:incoming></bpmn:task><bpmn:sequenceFlow id="f80" sourceRef="fork" targetRef="t80" /><bpmn:task id="t81"><bpmn:incoming>f81</bpmn:incoming></bpmn:task><bpmn:sequenceFlow id="f81" sourceRef="fork" targetRef="t81" /><bpmn:task id="t82"><bpmn:incoming>f82</bpmn:incoming></bpmn:task><bpmn:sequenceFlow id="f82" sourceRef="fork" targetRef="t82" /><bpmn:task id="t83"><bpmn:incoming>f83</bpmn:incoming></bpmn:task><bpmn:sequenceFlow id="f83" sourceRef="fork" targetRef="t83" /><bpmn:task id="t84"><bpmn:incoming>f84</bpmn:incoming></bpmn:task><bpmn:sequenceFlow id="f84" sourceRef="fork" targetRef="t84" /><bpmn:task id="t85"><bpmn:incoming>f85</bpmn:incoming></bpmn:task><bpmn:sequenceFlow id="f85" sourceRef="fork" targetRef="t85" /><bpmn:task id="t86"><bpmn:incoming>f86</bpmn:incoming></bpmn:task><bpmn:sequenceFlow id="f86" sourceRef="fork" targetRef="t86" /><bpmn:task id="t87"><bpmn:incoming>f87</bpmn:incoming></bpmn:task><bpmn:sequenceFlow id="f87" sourceRef="fork" targetRef="t87" /><bpmn:task id="t88"><bpmn:incoming>f88</bpmn:incoming></bpmn:task><bpmn:sequenceFlow id="f88" sourceRef="fork" targetRef="t88" /><bpmn:task id="t89"><bpmn:incoming>f89</bpmn:incoming></bpmn:task><bpmn:sequenceFlow id="f89" sourceRef="fork" targetRef="t89" /><bpmn:task id="t90"><bpmn:incoming>f90</bpmn:incoming></bpmn:task><bpmn:sequenceFlow id="f90" sourceRef="fork" targetRef="t90" /><bpmn:task id="t91"><bpmn:incoming>f91</bpmn:incoming></bpmn:task><bpmn:sequenceFlow id="f91" sourceRef="fork" targetRef="t91" /><bpmn:task id="t92"><bpmn:incoming>f92</bpmn:incoming></bpmn:task><bpmn:sequenceFlow id="f92" sourceRef="fork" targetRef="t92" /><bpmn:task id="t93"><bpmn:incoming>f93</bpmn:incoming></bpmn:task><bpmn:sequenceFlow id="f93" sourceRef="fork" targetRef="t93" /><bpmn:task id="t94"><bpmn:incoming>f94</bpmn:incoming></bpmn:task><bpmn:sequenceFlow id="f94" sourceRef="fork" targetRef="t94" /><bpmn:task id="t95"><bpmn:incoming>f95</bpmn:incoming></bpmn:task><bpmn:sequenceFlow id="f95" sourceRef="fork" targetRef="t95" /><bpmn:task id="t96"><bpmn:incoming>f96</bpmn:incoming></bpmn:task><bpmn:sequenceFlow id="f96" sourceRef="fork" targetRef="t96" /><bpmn:task id="t97"><bpmn:incoming>f97</bpmn:incoming></bpmn:task><bpmn:sequenceFlow id="f97" sourceRef="fork" targetRef="t97" /><bpmn:task id="t98"><bpmn:incoming>f98</bpmn:incoming></bpmn:task><bpmn:sequenceFlow id="f98" sourceRef="fork" targetRef="t98" /><bpmn:task id="t99"><bpmn:incoming>f99</bpmn:incoming></bpmn:task><bpmn:sequenceFlow id="f99" sourceRef="fork" targetRef="t99" /><bpmn:task id="t100"><bpmn:incoming>f100</bpmn:incoming></bpmn:task><bpmn:sequenceFlow id="f100" sourceRef="fork" targetRef="t100" /><bpmn:task id="t101"><bpmn:incoming>f101</bpmn:incoming></bpmn:task><bpmn:sequenceFlow id="f101" sourceRef="fork" targetRef="t101" /><bpmn:task id="t102"><bpmn:incoming>f102</bpmn:incoming></bpmn:task><bpmn:sequenceFlow id="f102" sourceRef="fork" targetRef="t102" /><bpmn:task id="t103"><bpmn:incoming>f103</bpmn:incoming></bpmn:task><bpmn:sequenceFlow id="f103" sourceRef="fork" targetRef="t103" /><bpmn:task id="t104"><bpmn:incoming>f104</bpmn:incoming></bpmn:task><bpmn:sequenceFlow id="f104" sourceRef="fork" targetRef="t104" /><bpmn:task id="t105"><bpmn:incoming>f105</bpmn:incoming></bpmn:task><bpmn:sequenceFlow id="f105" sourceRef="fork" targetRef="t105" /><bpmn:task id="t106"><bpmn:incoming>f106</bpmn:incoming></bpmn:task><bpmn:sequenceFlow id="f106" sourceRef="fork" targetRef="t106" /><bpmn:task id="t107"><bpmn:incoming>f107</bpmn:incoming></bpmn:task><bpmn:sequenceFlow id="f107" sourceRef="fork" targetRef="t107" /><bpmn:task id="t108"><bpmn:incoming>f108</bpmn:incoming></bpmn:task><bpmn:sequenceFlow id="f108" sourceRef="fork" targetRef="t108" /><bpmn:task id="t109"><bpmn:incoming>f109</bpmn:incoming></bpmn:task><bpmn:sequenceFlow id="f109" sourceRef="fork" targetRef="t109" /><bpmn:task id="t110"><bpmn:incoming>f110</bpmn:incoming></bpmn:task><bpmn:sequenceFlow id="f110" sourceRef="fork" targetRef="t110" /><bpmn:task id="t111"><bpmn:incoming>f111</bpmn:incoming></bpmn:task><bpmn:sequenceFlow id="f111" sourceRef="fork" targetRef="t111" /><bpmn:task id="t112"><bpmn:incoming>f112</bpmn:incoming></bpmn:task><bpmn:sequenceFlow id="f112" sourceRef="fork" targetRef="t112" /><bpmn:task id="t113"><bpmn:incoming>f113</bpmn:incoming></bpmn:task><bpmn:sequenceFlow id="f113" sourceRef="fork" targetRef="t113" /><bpmn:task id="t114"><bpmn:incoming>f114</bpmn:incoming></bpmn:task><bpmn:sequenceFlow id="f114" sourceRef="fork" targetRef="t114" /><bpmn:task id="t115"><bpmn:incoming>f115</bpmn:incoming></bpmn:task><bpmn:sequenceFlow id="f115" sourceRef="fork" targetRef="t115" /><bpmn:task id="t116"><bpmn:incoming>f116</bpmn:incoming></bpmn:task><bpmn:sequenceFlow id="f116" sourceRef="fork" targetRef="t116" /><bpmn:task id="t117"><bpmn:incoming>f117</bpmn:incoming></bpmn:task><bpmn:sequenceFlow id="f117" sourceRef="fork" targetRef="t117" /><bpmn:task id="t118"><bpmn:incoming>f118</bpmn:incoming></bpmn:task><bpmn:sequenceFlow id="f118" sourceRef="fork" targetRef="t118" /><bpmn:task id="t119"><bpmn:incoming>f119</bpmn:incoming></bpmn:task><bpmn:sequenceFlow id="f119" sourceRef="fork" targetRef="t119" /><bpmn:task id="t120"><bpmn:incoming>f120</bpmn:incoming></bpmn:task><bpmn:sequenceFlow id="f120" sourceRef="fork" targetRef="t120" /><bpmn:task id="t121"><bpmn:incoming>f121</bpmn:incoming></bpmn:task><bpmn:sequenceFlow id="f121" sourceRef="fork" targetRef="t121" /><bpmn:task id="t122"><bpmn:incoming>f122</bpmn:incoming></bpmn:task><bpmn:sequenceFlow id="f122" sourceRef="fork" targetRef="t122" /><bpmn:task id="t123"><bpmn:incoming>f123</bpmn:incoming></bpmn:task><bpmn:sequenceFlow id="f123" sourceRef="fork" targetRef="t123" /><bpmn:task id="t124"><bpmn:incoming>f124</bpmn:incoming></bpmn:task><bpmn:sequenceFlow id="f124" sourceRef="fork" targetRef="t124" /><bpmn:task id="t125"><bpmn:incoming>f125</bpmn:incoming></bpmn:task><bpmn:sequenceFlow id="f125" sourceRef="fork" targetRef="t125" /><bpmn:task id="t126"><bpmn:incoming>f126</bpmn:incoming></bpmn:task><bpmn:sequenceFlow id="f126" sourceRef="fork" targetRef="t126" /><bpmn:task id="t127"><bpmn:incoming>f127</bpmn:incoming></bpmn:task><bpmn:sequenceFlow id="f127" sourceRef="fork" targetRef="t127" /><bpmn:task id="t128"><bpmn:incoming>f128</bpmn:incoming></bpmn:task><bpmn:sequenceFlow id="f128" sourceRef="fork" targetRef="t128" /><bpmn:task id="t129"><bpmn:incoming>f129</bpmn:incoming></bpmn:task><bpmn:sequenceFlow id="f129" sourceRef="fork" targetRef="t129" /><bpmn:task id="t130"><bpmn:incoming>f130</bpmn:incoming></bpmn:task><bpmn:sequenceFlow id="f130" sourceRef="fork" targetRef="t130" /><bpmn:task id="t131"><bpmn:incoming>f131</bpmn:incoming></bpmn:task><bpmn:sequenceFlow id="f131" sourceRef="fork" targetRef="t131" /><bpmn:task id="t132"><bpmn:incoming>f132</bpmn:incoming></bpmn:task><bpmn:sequenceFlow id="f132" sourceRef="fork" targetRef="t132" /><bpmn:task id="t133"><bpmn:incoming>f133</bpmn:incoming></bpmn:task><bpmn:sequenceFlow id="f133" sourceRef="fork" targetRef="t133" /><bpmn:task id="t134"><bpmn:incoming>f134</bpmn:incoming></bpmn:task><bpmn:sequenceFlow id="f134" sourceRef="fork" targetRef="t134" /><bpmn:task id="t135"><bpmn:incoming>f135</bpmn:incoming></bpmn:task><bpmn:sequenceFlow id="f135" sourceRef="fork" targetRef="t135" /><bpmn:task id="t136"><bpmn:incoming>f136</bpmn:incoming></bpmn:task><bpmn:sequenceFlow id="f136" sourceRef="fork" targetRef="t136" /><bpmn:task id="t137"><bpmn:incoming>f137</bpmn:incoming></bpmn:task><bpmn:sequenceFlow id="f137" sourceRef="fork" targetRef="t137" /><bpmn:task id="t138"><bpmn:incoming>f138</bpmn:incoming></bpmn:task><bpmn:sequenceFlow id="f138" sourceRef="fork" targetRef="t138" /><bpmn:task id="t139"><bpmn:incoming>f139</bpmn:incoming></bpmn:task><bpmn:sequenceFlow id="f139" sourceRef="fork" targetRef="t139" /><bpmn:task id="t140"><bpmn:incoming>f140</bpmn:incoming></bpmn:task><bpmn:sequenceFlow id="f140" sourceRef="fork" targetRef="t140" /><bpmn:task id="t141"><bpmn:incoming>f141</bpmn:incoming></bpmn:task><bpmn:sequenceFlow id="f141" sourceRef="fork" targetRef="t141" /><bpmn:task id="t142"><bpmn:incoming>f142</bpmn:incoming></bpmn:task><bpmn:sequenceFlow id="f142" sourceRef="fork" targetRef="t142" /><bpmn:task id="t143"><bpmn:incoming>f143</bpmn:incoming></bpmn:task><bpmn:sequenceFlow id="f143" sourceRef="fork" targetRef="t143" /><bpmn:task id="t144"><bpmn:incoming>f144</bpmn:incoming></bpmn:task><bpmn:sequenceFlow id="f144" sourceRef="fork" targetRef="t144" /><bpmn:task id="t145"><bpmn:incoming>f145</bpmn:incoming></bpmn:task><bpmn:sequenceFlow id="f145" sourceRef="fork" targetRef="t145" /><bpmn:task id="t146"><bpmn:incoming>f146</bpmn:incoming></bpmn:task><bpmn:sequenceFlow id="f146" sourceRef="fork" targetRef="t146" /><bpmn:task id="t147"><bpmn:incoming>f147</bpmn:incoming></bpmn:task><bpmn:sequenceFlow id="f147" sourceRef="fork" targetRef="t147" /><bpmn:task id="t148"><bpmn:incoming>f148</bpmn:incoming></bpmn:task><bpmn:sequenceFlow id="f148" sourceRef="fork" targetRef="t148" /><bpmn:task id="t149"><bpmn:incoming>f149</bpmn:incoming></bpmn:task><bpmn:sequenceFlow id="f149" sourceRef="fork" targetRef="t149" /><bpmn:task id="t150"><bpmn:incoming>f150</bpmn:incoming></bpmn:task><bpmn:sequenceFlow id="f150" sourceRef="fork" targetRef="t150" /><bpmn:task id="t151"><bpmn:incoming>f151</bpmn:incoming></bpmn:task><bpmn:sequenceFlow id="f151" sourceRef="fork" targetRef="t151" /><bpmn:task id="t152"><bpmn:incoming>f152</bpmn:incoming></bpmn:task><bpmn:sequenceFlow id="f152" sourceRef="fork" targetRef="t152" /><bpmn:task id="t153"><bpmn:incoming>f153</bpmn:incoming></bpmn:task><bpmn:sequenceFlow id="f153" sourceRef="fork" targetRef="t153" /><bpmn:task id="t154"><bpmn:incoming>f154</bpmn:incoming></bpmn:task><bpmn:sequenceFlow id="f154" sourceRef="fork" targetRef="t154" /><bpmn:task id="t155"><bpmn:incoming>f155</bpmn:incoming></bpmn:task><bpmn:sequenceFlow id="f155" sourceRef="fork" targetRef="t155" /><bpmn:task id="t156"><bpmn:incoming>f156</bpmn:incoming></bpmn:task><bpmn:sequenceFlow id="f156" sourceRef="fork" targetRef="t156" /><bpmn:task id="t157"><bpmn:incoming>f157</bpmn:incoming></bpmn:task><bpmn:sequenceFlow id="f157" sourceRef="fork" targetRef="t157" /><bpmn:task id="t158"><bpmn:incoming>f158</bpmn:incoming></bpmn:task><bpmn:sequenceFlow id="f158" sourceRef="fork" targetRef="t158" /><bpmn:task id="t159"><bpmn:incoming>f159</bpmn:incoming></bpmn:task><bpmn:sequenceFlow id="f159" sourceRef="fork" targetRef="t159" /><bpmn:task id="t160"><bpmn:incoming>f160</bpmn:incoming></bpmn:task><bpmn:sequenceFlow id="f160" sourceRef="fork" targetRef="t160" /><bpmn:task id="t161"><bpmn:incoming>f161</bpmn:incoming></bpmn:task><bpmn:sequenceFlow id="f161" sourceRef="fork" targetRef="t161" /><bpmn:task id="t162"><bpmn:incoming>f162</bpmn:incoming></bpmn:task><bpmn:sequenceFlow id="f162" sourceRef="fork" targetRef="t162" /><bpmn:task id="t163"><bpmn:incoming>f163</bpmn:incoming></bpmn:task><bpmn:sequenceFlow id="f163" sourceRef="fork" targetRef="t163" /><bpmn:task id="t164"><bpmn:incoming>f164</bpmn:incoming></bpmn:task><bpmn:sequenceFlow id="f164" sourceRef="fork" targetRef="t164" /><bpmn:task id="t165"><bpmn:incoming>f165</bpmn:incoming></bpmn:task><bpmn:sequenceFlow id="f165" sourceRef="fork" targetRef="t165" /><bpmn:task id="t166"><bpmn:incoming>f166</bpmn:incoming></bpmn:task><bpmn:sequenceFlow id="f166" sourceRef="fork" targetRef="t166" /><bpmn:task id="t167"><bpmn:incoming>f167</bpmn:incoming></bpmn:task><bpmn:sequenceFlow id="f167" sourceRef="fork" targetRef="t167" /><bpmn:task id="t168"><bpmn:incoming>f168</bpmn:incoming></bpmn:task><bpmn:sequenceFlow id="f168" sourceRef="fork" targetRef="t168" /><bpmn:task id="t169"><bpmn:incoming>f169</bpmn:incoming></bpmn:task><bpmn:sequenceFlow id="f169" sourceRef="fork" targetRef="t169" /><bpmn:task id="t170"><bpmn:incoming>f170</bpmn:incoming></bpmn:task><bpmn:sequenceFlow id="f170" sourceRef="fork" targetRef="t170" /><bpmn:task id="t171"><bpmn:incoming>f171</bpmn:incoming></bpmn:task><bpmn:sequenceFlow id="f171" sourceRef="fork" targetRef="t171" /><bpmn:task id="t172"><bpmn:incoming>f172</bpmn:incoming></bpmn:task><bpmn:sequenceFlow id="f172" sourceRef="fork" targetRef="t172" /><bpmn:task id="t173"><bpmn:incoming>f173</bpmn:incoming></bpmn:task><bpmn:sequenceFlow id="f173" sourceRef="fork" targetRef="t173" /><bpmn:task id="t174"><bpmn:incoming>f174</bpmn:incoming></bpmn:task><bpmn:sequenceFlow id="f174" sourceRef="fork" targetRef="t174" /><bpmn:task id="t175"><bpmn:incoming>f175</bpmn:incoming></bpmn:task><bpmn:sequenceFlow id="f175" sourceRef="fork" targetRef="t175" /><bpmn:task id="t176"><bpmn:incoming>f176</bpmn:incoming></bpmn:task><bpmn:sequenceFlow id="f176" sourceRef="fork" targetRef="t176" /><bpmn:task id="t177"><bpmn:incoming>f177</bpmn:incoming></bpmn:task><bpmn:sequenceFlow id="f177" sourceRef="fork" targetRef="t177" /><bpmn:task id="t178"><bpmn:incoming>f178</bpmn:incoming></bpmn:task><bpmn:sequenceFlow id="f178" sourceRef="fork" targetRef="t178" /><bpmn:task id="t179"><bpmn:incoming>f179</bpmn:incoming></bpmn:task><bpmn:sequenceFlow id="f179" sourceRef="fork" targetRef="t179" /><bpmn:task id="t180"><bpmn:incoming>f180</bpmn:incoming></bpmn:task><bpmn:sequenceFlow id="f180" sourceRef="fork" targetRef="t180" /><bpmn:task id="t181"><bpmn:incoming>f181</bpmn:incoming></bpmn:task><bpmn:sequenceFlow id="f181" sourceRef="fork" targetRef="t181" /><bpmn:task id="t182"><bpmn:incoming>f182</bpmn:incoming></bpmn:task><bpmn:sequenceFlow id="f182" sourceRef="fork" targetRef="t182" /><bpmn:task id="t183"><bpmn:incoming>f183</bpmn:incoming></bpmn:task><bpmn:sequenceFlow id="f183" sourceRef="fork" targetRef="t183" /><bpmn:task id="t184"><bpmn:incoming>f184</bpmn:incoming></bpmn:task><bpmn:sequenceFlow id="f184" sourceRef="fork" targetRef="t184" /><bpmn:task id="t185"><bpmn:incoming>f185</bpmn:incoming></bpmn:task><bpmn:sequenceFlow id="f185" sourceRef="fork" targetRef="t185" /><bpmn:task id="t186"><bpmn:incoming>f186</bpmn:incoming></bpmn:task><bpmn:sequenceFlow id="f186" sourceRef="fork" targetRef="t186" /><bpmn:task id="t187"><bpmn:incoming>f187</bpmn:incoming></bpmn:task><bpmn:sequenceFlow id="f187" sourceRef="fork" targetRef="t187" /><bpmn:task id="t188"><bpmn:incoming>f188</bpmn:incoming></bpmn:task><bpmn:sequenceFlow id="f188" sourceRef="fork" targetRef="t188" /><bpmn:task id="t189"><bpmn:incoming>f189</bpmn:incoming></bpmn:task><bpmn:sequenceFlow id="f189" sourceRef="fork" targetRef="t189" /><bpmn:task id="t190"><bpmn:incoming>f190</bpmn:incoming></bpmn:task><bpmn:sequenceFlow id="f190" sourceRef="fork" targetRef="t190" /><bpmn:task id="t191"><bpmn:incoming>f191</bpmn:incoming></bpmn:task><bpmn:sequenceFlow id="f191" sourceRef="fork" targetRef="t191" /><bpmn:task id="t192"><bpmn:incoming>f192</bpmn:incoming></bpmn:task><bpmn:sequenceFlow id="f192" sourceRef="fork" targetRef="t192" /><bpmn:task id="t193"><bpmn:incoming>f193</bpmn:incoming></bpmn:task><bpmn:sequenceFlow id="f193" sourceRef="fork" targetRef="t193" /><bpmn:task id="t194"><bpmn:incoming>f194</bpmn:incoming></bpmn:task><bpmn:sequenceFlow id="f194" sourceRef="fork" targetRef="t194" /><bpmn:task id="t195"><bpmn:incoming>f195</bpmn:incoming></bpmn:task><bpmn:sequenceFlow id="f195" sourceRef="fork" targetRef="t195" /><bpmn:task id="t196"><bpmn:incoming>f196</bpmn:incoming></bpmn:task><bpmn:sequenceFlow id="f196" sourceRef="fork" targetRef="t196" /><bpmn:task id="t197"><bpmn:incoming>f197</bpmn:incoming></bpmn:task><bpmn:sequenceFlow id="f197" sourceRef="fork" targetRef="t197" /><bpmn:task id="t198"><bpmn:incoming>f198</bpmn:incoming></bpmn:task><bpmn:sequenceFlow id="f198" sourceRef="fork" targetRef="t198" /><bpmn:task id="t199"><bpmn:incoming>f199</bpmn:incoming></bpmn:task><bpmn:sequenceFlow id="f199" sourceRef="fork" targetRef="t199" /><bpmn:task id="t200"><bpmn:incoming>f200</bpmn:incoming></bpmn:task><bpmn:sequenceFlow id="f200" sourceRef="fork" targetRef="t200" /><bpmn:task id="t201"><bpmn:incoming>f201</bpmn:incoming></bpmn:task><bpmn:sequenceFlow id="f201" sourceRef="fork" targetRef="t201" /><bpmn:task id="t202"><bpmn:incoming>f202</bpmn:incoming></bpmn:task><bpmn:sequenceFlow id="f202" sourceRef="fork" targetRef="t202" /><bpmn:task id="t203"><bpmn:incoming>f203</bpmn:incoming></bpmn:task><bpmn:sequenceFlow id="f203" sourceRef="fork" targetRef="t203" /><bpmn:task id="t204"><bpmn:incoming>f204</bpmn:incoming></bpmn:task><bpmn:sequenceFlow id="f204" sourceRef="fork" targetRef="t204" /><bpmn:task id="t205"><bpmn:incoming>f205</bpmn:incoming></bpmn:task><bpmn:sequenceFlow id="f205" sourceRef="fork" targetRef="t205" /><bpmn:task id="t206"><bpmn:incoming>f206</bpmn:incoming></bpmn:task><bpmn:sequenceFlow id="f206" sourceRef="fork" targetRef="t206" /><bpmn:task id="t207"><bpmn:incoming>f207</bpmn:incoming></bpmn:task><bpmn:sequenceFlow id="f207" sourceRef="fork" targetRef="t207" /><bpmn:task id="t208"><bpmn:incoming>f208</bpmn:incoming></bpmn:task><bpmn:sequenceFlow id="f208" sourceRef="fork" targetRef="t208" /><bpmn:task id="t209"><bpmn:incoming>f209</bpmn:incoming></bpmn:task><bpmn:sequenceFlow id="f209" sourceRef="fork" targetRef="t209" /><bpmn:task id="t210"><bpmn:incoming>f210</bpmn:incoming></bpmn:task><bpmn:sequenceFlow id="f210" sourceRef="fork" targetRef="t210" /><bpmn:task id="t211"><bpmn:incoming>f211</bpmn:incoming></bpmn:task><bpmn:sequenceFlow id="f211" sourceRef="fork" targetRef="t211" /><bpmn:task id="t212"><bpmn:incoming>f212</bpmn:incoming></bpmn:task><bpmn:sequenceFlow id="f212" sourceRef="fork" targetRef="t212" /><bpmn:task id="t213"><bpmn:incoming>f213</bpmn:incoming></bpmn:task><bpmn:sequenceFlow id="f213" sourceRef="fork" targetRef="t213" /><bpmn:task id="t214"><bpmn:incoming>f214</bpmn:incoming></bpmn:task><bpmn:sequenceFlow id="f214" sourceRef="fork" targetRef="t214" /><bpmn:task id="t215"><bpmn:incoming>f215</bpmn:incoming></bpmn:task><bpmn:sequenceFlow id="f215" sourceRef="fork" targetRef="t215" /><bpmn:task id="t216"><bpmn:incoming>f216</bpmn:incoming></bpmn:task><bpmn:sequenceFlow id="f216" sourceRef="fork" targetRef="t216" /><bpmn:task id="t217"><bpmn:incoming>f217</bpmn:incoming></bpmn:task><bpmn:sequenceFlow id="f217" sourceRef="fork" targetRef="t217" /><bpmn:task id="t218"><bpmn:incoming>f218</bpmn:incoming></bpmn:task><bpmn:sequenceFlow id="f218" sourceRef="fork" targetRef="t218" /><bpmn:task id="t219"><bpmn:incoming>f219</bpmn:incoming></bpmn:task><bpmn:sequenceFlow id="f219" sourceRef="fork" targetRef="t219" /><bpmn:task id="t220"><bpmn:incoming>f220</bpmn:incoming></bpmn:task><bpmn:sequenceFlow id="f220" sourceRef="fork" targetRef="t220" /><bpmn:task id="t221"><bpmn:incoming>f221</bpmn:incoming></bpmn:task><bpmn:sequenceFlow id="f221" sourceRef="fork" targetRef="t221" /><bpmn:task id="t222"><bpmn:incoming>f222</bpmn:incoming></bpmn:task><bpmn:sequenceFlow id="f222" sourceRef="fork" targetRef="t222" /><bpmn:task id="t223"><bpmn:incoming>f223</bpmn:incoming></bpmn:task><bpmn:sequenceFlow id="f223" sourceRef="fork" targetRef="t223" /><bpmn:task id="t224"><bpmn:incoming>f224</bpmn:incoming></bpmn:task><bpmn:sequenceFlow id="f224" sourceRef="fork" targetRef="t224" /><bpmn:task id="t225"><bpmn:incoming>f225</bpmn:incoming></bpmn:task><bpmn:sequenceFlow id="f225" sourceRef="fork" targetRef="t225" /><bpmn:task id="t226"><bpmn:incoming>f226</bpmn:incoming></bpmn:task><bpmn:sequenceFlow id="f226" sourceRef="fork" targetRef="t226" /><bpmn:task id="t227"><bpmn:incoming>f227</bpmn:incoming></bpmn:task><bpmn:sequenceFlow id="f227" sourceRef="fork" targetRef="t227" /><bpmn:task id="t228"><bpmn:incoming>f228</bpmn:incoming></bpmn:task><bpmn:sequenceFlow id="f228" sourceRef="fork" targetRef="t228" /><bpmn:task id="t229"><bpmn:incoming>f229</bpmn:incoming></bpmn:task><bpmn:sequenceFlow id="f229" sourceRef="fork" targetRef="t229" /><bpmn:task id="t230"><bpmn:incoming>f230</bpmn:incoming></bpmn:task><bpmn:sequenceFlow id="f230" sourceRef="fork" targetRef="t230" /><bpmn:task id="t231"><bpmn:incoming>f231</bpmn:incoming></bpmn:task><bpmn:sequenceFlow id="f231" sourceRef="fork" targetRef="t231" /><bpmn:task id="t232"><bpmn:incoming>f232</bpmn:incoming></bpmn:task><bpmn:sequenceFlow id="f232" sourceRef="fork" targetRef="t232" /><bpmn:task id="t233"><bpmn:incoming>f233</bpmn:incoming></bpmn:task><bpmn:sequenceFlow id="f233" sourceRef="fork" targetRef="t233" /><bpmn:task id="t234"><bpmn:incoming>f234</bpmn:incoming></bpmn:task><bpmn:sequenceFlow id="f234" sourceRef="fork" targetRef="t234" /><bpmn:task id="t235"><bpmn:incoming>f235</bpmn:incoming></bpmn:task><bpmn:sequenceFlow id="f235" sourceRef="fork" targetRef="t235" /><bpmn:task id="t236"><bpmn:incoming>f236</bpmn:incoming></bpmn:task><bpmn:sequenceFlow id="f236" sourceRef="fork" targetRef="t236" /><bpmn:task id="t237"><bpmn:incoming>f237</bpmn:incoming></bpmn:task><bpmn:sequenceFlow id="f237" sourceRef="fork" targetRef="t237" /><bpmn:task id="t238"><bpmn:incoming>f238</bpmn:incoming></bpmn:task><bpmn:sequenceFlow id="f238" sourceRef="fork" targetRef="t238" /><bpmn:task id="t239"><bpmn:incoming>f239</bpmn:incoming></bpmn:task><bpmn:sequenceFlow id="f239" sourceRef="fork" targetRef="t239" /><bpmn:task id="t240"><bpmn:incoming>f240</bpmn:incoming></bpmn:task><bpmn:sequenceFlow id="f240" sourceRef="fork" targetRef="t240" /><bpmn:task id="t241"><bpmn:incoming>f241</bpmn:incoming></bpmn:task><bpmn:sequenceFlow id="f241" sourceRef="fork" targetRef="t241" /><bpmn:task id="t242"><bpmn:incoming>f242</bpmn:incoming></bpmn:task><bpmn:sequenceFlow id="f242" sourceRef="fork" targetRef="t242" /><bpmn:task id="t243"><bpmn:incoming>f243</bpmn:incoming></bpmn:task><bpmn:sequenceFlow id="f243" sourceRef="fork" targetRef="t243" /><bpmn:task id="t244"><bpmn:incoming>f244</bpmn:incoming></bpmn:task><bpmn:sequenceFlow id="f244" sourceRef="fork" targetRef="t244" /><bpmn:task id="t245"><bpmn:incoming>f245</bpmn:incoming></bpmn:task><bpmn:sequenceFlow id="f245" sourceRef="fork" targetRef="t245" /><bpmn:task id="t246"><bpmn:incoming>f246</bpmn:incoming></bpmn:task><bpmn:sequenceFlow id="f246" sourceRef="fork" targetRef="t246" /><bpmn:task id="t247"><bpmn:incoming>f247</bpmn:incoming></bpmn:task><bpmn:sequenceFlow id="f247" sourceRef="fork" targetRef="t247" /><bpmn:task id="t248"><bpmn:incoming>f248</bpmn:incoming></bpmn:task><bpmn:sequenceFlow id="f248" sourceRef="fork" targetRef="t248" /><bpmn:task id="t249"><bpmn:incoming>f249</bpmn:incoming></bpmn:task><bpmn:sequenceFlow id="f249" sourceRef="fork" targetRef="t249" /><bpmn:task id="t250"><bpmn:incoming>f250</bpmn:incoming></bpmn:task><bpmn:sequenceFlow id="f250" sourceRef="fork" targetRef="t250" /><bpmn:task id="t251"><bpmn:incoming>f251</bpmn:incoming></bpmn:task><bpmn:sequenceFlow id="f251" sourceRef="fork" targetRef="t251" /><bpmn:task id="t252"><bpmn:incoming>f252</bpmn:incoming></bpmn:task><bpmn:sequenceFlow id="f252" sourceRef="fork" targetRef="t252" /><bpmn:task id="t253"><bpmn:incoming>f253</bpmn:incoming></bpmn:task><bpmn:sequenceFlow id="f253" sourceRef="fork" targetRef="t253" /><bpmn:task id="t254"><bpmn:incoming>f254</bpmn:incoming></bpmn:task><bpmn:sequenceFlow id="f254" sourceRef="fork" targetRef="t254" /><bpmn:task id="t255"><bpmn:incoming>f255</bpmn:incoming></bpmn:task><bpmn:sequenceFlow id="f255" sourceRef="fork" targetRef="t255" /><bpmn:task id="t256"><bpmn:incoming>f256</bpmn:incoming></bpmn:task><bpmn:sequenceFlow id="f256" sourceRef="fork" targetRef="t256" /><bpmn:task id="t257"><bpmn:incoming>f257</bpmn:incoming></bpmn:task><bpmn:sequenceFlow id="f257" sourceRef="fork" targetRef="t257" /><bpmn:task id="t258"><bpmn:incoming>f258</bpmn:incoming></bpmn:task><bpmn:sequenceFlow id="f258" sourceRef="fork" targetRef="t258" /><bpmn:task id="t259"><bpmn:incoming>f259</bpmn:incoming></bpmn:task><bpmn:sequenceFlow id="f259" sourceRef="fork" targetRef="t259" /><bpmn:task id="t260"><bpmn:incoming>f260</bpmn:incoming></bpmn:task><bpmn:sequenceFlow id="f260" sourceRef="fork" targetRef="t260" /><bpmn:task id="t261"><bpmn:incoming>f261</bpmn:incoming></bpmn:task><bpmn:sequenceFlow id="f261" sourceRef="fork" targetRef="t261" /><bpmn:task id="t262"><bpmn:incoming>f262</bpmn:incoming></bpmn:task><bpmn:sequenceFlow id="f262" sourceRef="fork" targetRef="t262" /><bpmn:task id="t263"><bpmn:incoming>f263</bpmn:incoming></bpmn:task><bpmn:sequenceFlow id="f263" sourceRef="fork" targetRef="t263" /><bpmn:task id="t264"><bpmn:incoming>f264</bpmn:incoming></bpmn:task><bpmn:sequenceFlow id="f264" sourceRef="fork" targetRef="t264" /><bpmn:task id="t265"><bpmn:incoming>f265</bpmn:incoming></bpmn:task><bpmn:sequenceFlow id="f265" sourceRef="fork" targetRef="t265" /><bpmn:task id="t266"><bpmn:incoming>f266</bpmn:incoming></bpmn:task><bpmn:sequenceFlow id="f266" sourceRef="fork" targetRef="t266" /><bpmn:task id="t267"><bpmn:incoming>f267</bpmn:incoming></bpmn:task><bpmn:sequenceFlow id="f267" sourceRef="fork" targetRef="t267" /><bpmn:task id="t268"><bpmn:incoming>f268</bpmn:incoming></bpmn:task><bpmn:sequenceFlow id="f268" sourceRef="fork" targetRef="t268" /><bpmn:task id="t269"><bpmn:incoming>f269</bpmn:incoming></bpmn:task><bpmn:sequenceFlow id="f269" sourceRef="fork" targetRef="t269" /><bpmn:task id="t270"><bpmn:incoming>f270</bpmn:incoming></bpmn:task><bpmn:sequenceFlow id="f270" sourceRef="fork" targetRef="t270" /><bpmn:task id="t271"><bpmn:incoming>f271</bpmn:incoming></bpmn:task><bpmn:sequenceFlow id="f271" sourceRef="fork" targetRef="t271" /><bpmn:task id="t272"><bpmn:incoming>f272</bpmn:incoming></bpmn:task><bpmn:sequenceFlow id="f272" sourceRef="fork" targetRef="t272" /><bpmn:task id="t273"><bpmn:incoming>f273</bpmn:incoming></bpmn:task><bpmn:sequenceFlow id="f273" sourceRef="fork" targetRef="t273" /><bpmn:task id="t274"><bpmn:incoming>f274</bpmn:incoming></bpmn:task><bpmn:sequenceFlow id="f274" sourceRef="fork" targetRef="t274" /><bpmn:task id="t275"><bpmn:incoming>f275</bpmn:incoming></bpmn:task><bpmn:sequenceFlow id="f275" sourceRef="fork" targetRef="t275" /><bpmn:task id="t276"><bpmn:incoming>f276</bpmn:incoming></bpmn:task><bpmn:sequenceFlow id="f276" sourceRef="fork" targetRef="t276" /><bpmn:task id="t277"><bpmn:incoming>f277</bpmn:incoming></bpmn:task><bpmn:sequenceFlow id="f277" sourceRef="fork" targetRef="t277" /><bpmn:task id="t278"><bpmn:incoming>f278</bpmn:incoming></bpmn:task><bpmn:sequenceFlow id="f278" sourceRef="fork" targetRef="t278" /><bpmn:task id="t279"><bpmn:incoming>f279</bpmn:incoming></bpmn:task><bpmn:sequenceFlow id="f279" sourceRef="fork" targetRef="t279" /><bpmn:task id="t280"><bpmn:incoming>f280</bpmn:incoming></bpmn:task><bpmn:sequenceFlow id="f280" sourceRef="fork" targetRef="t280" /><bpmn:task id="t281"><bpmn:incoming>f281</bpmn:incoming></bpmn:task><bpmn:sequenceFlow id="f281" sourceRef="fork" targetRef="t281" /><bpmn:task id="t282"><bpmn:incoming>f282</bpmn:incoming></bpmn:task><bpmn:sequenceFlow id="f282" sourceRef="fork" targetRef="t282" /><bpmn:task id="t283"><bpmn:incoming>f283</bpmn:incoming></bpmn:task><bpmn:sequenceFlow id="f283" sourceRef="fork" targetRef="t283" /><bpmn:task id="t284"><bpmn:incoming>f284</bpmn:incoming></bpmn:task><bpmn:sequenceFlow id="f284" sourceRef="fork" targetRef="t284" /><bpmn:task id="t285"><bpmn:incoming>f285</bpmn:incoming></bpmn:task><bpmn:sequenceFlow id="f285" sourceRef="fork" targetRef="t285" /><bpmn:task id="t286"><bpmn:incoming>f286</bpmn:incoming></bpmn:task><bpmn:sequenceFlow id="f286" sourceRef="fork" targetRef="t286" /><bpmn:task id="t287"><bpmn:incoming>f287</bpmn:incoming></bpmn:task><bpmn:sequenceFlow id="f287" sourceRef="fork" targetRef="t287" /><bpmn:task id="t288"><bpmn:incoming>f288</bpmn:incoming></bpmn:task><bpmn:sequenceFlow id="f288" sourceRef="fork" targetRef="t288" /><bpmn:task id="t289"><bpmn:incoming>f289</bpmn:incoming></bpmn:task><bpmn:sequenceFlow id="f289" sourceRef="fork" targetRef="t289" /><bpmn:task id="t290"><bpmn:incoming>f290</bpmn:incoming></bpmn:task><bpmn:sequenceFlow id="f290" sourceRef="fork" targetRef="t290" /><bpmn:task id="t291"><bpmn:incoming>f291</bpmn:incoming></bpmn:task><bpmn:sequenceFlow id="f291" sourceRef="fork" targetRef="t291" /><bpmn:task id="t292"><bpmn:incoming>f292</bpmn:incoming></bpmn:task><bpmn:sequenceFlow id="f292" sourceRef="fork" targetRef="t292" /><bpmn:task id="t293"><bpmn:incoming>f293</bpmn:incoming></bpmn:task><bpmn:sequenceFlow id="f293" sourceRef="fork" targetRef="t293" /><bpmn:task id="t294"><bpmn:incoming>f294</bpmn:incoming></bpmn:task><bpmn:sequenceFlow id="f294" sourceRef="fork" targetRef="t294" /><bpmn:task id="t295"><bpmn:incoming>f295</bpmn:incoming></bpmn:task><bpmn:sequenceFlow id="f295" sourceRef="fork" targetRef="t295" /><bpmn:task id="t296"><bpmn:incoming>f296</bpmn:incoming></bpmn:task><bpmn:sequenceFlow id="f296" sourceRef="fork" targetRef="t296" /><bpmn:task id="t297"><bpmn:incoming>f297</bpmn:incoming></bpmn:task><bpmn:sequenceFlow id="f297" sourceRef="fork" targetRef="t297" /><bpmn:task id="t298"><bpmn:incoming>f298</bpmn:incoming></bpmn:task><bpmn:sequenceFlow id="f298" sourceRef="fork" targetRef="t298" /><bpmn:task id="t299"><bpmn:incoming>f299</bpmn:incoming></bpmn:task><bpmn:sequenceFlow id="f299" sourceRef="fork" targetRef="t299" /><bpmn:task id="t300"><bpmn:incoming>f300</bpmn:incoming></bpmn:task><bpmn:sequenceFlow id="f300" sourceRef="fork" targetRef="t300" /><bpmn:task id="t301"><bpmn:incoming>f301</bpmn:incoming></bpmn:task><bpmn:sequenceFlow id="f301" sourceRef="fork" targetRef="t301" /><bpmn:task id="t302"><bpmn:incoming>f302</bpmn:incoming></bpmn:task><bpmn:sequenceFlow id="f302" sourceRef="fork" targetRef="t302" /><bpmn:task id="t303"><bpmn:incoming>f303</bpmn:incoming></bpmn:task><bpmn:sequenceFlow id="f303" sourceRef="fork" targetRef="t303" /><bpmn:task id="t304"><bpmn:incoming>f304</bpmn:incoming></bpmn:task><bpmn:sequenceFlow id="f304" sourceRef="fork" targetRef="t304" /><bpmn:task id="t305"><bpmn:incoming>f305</bpmn:incoming></bpmn:task><bpmn:sequenceFlow id="f305" sourceRef="fork" targetRef="t305" /><bpmn:task id="t306"><bpmn:incoming>f306</bpmn:incoming></bpmn:task><bpmn:sequenceFlow id="f306" sourceRef="fork" targetRef="t306" /><bpmn:task id="t307"><bpmn:incoming>f307</bpmn:incoming></bpmn:task><bpmn:sequenceFlow id="f307" sourceRef="fork" targetRef="t307" /><bpmn:task id="t308"><bpmn:incoming>f308</bpmn:incoming></bpmn:task><bpmn:sequenceFlow id="f308" sourceRef="fork" targetRef="t308" /><bpmn:task id="t309"><bpmn:incoming>f309</bpmn:incoming></bpmn:task><bpmn:sequenceFlow id="f309" sourceRef="fork" targetRef="t309" /><bpmn:task id="t310"><bpmn:incoming>f310</bpmn:incoming></bpmn:task><bpmn:sequenceFlow id="f310" sourceRef="fork" targetRef="t310" /><bpmn:task id="t311"><bpmn:incoming>f311</bpmn:incoming></bpmn:task><bpmn:sequenceFlow id="f311" sourceRef="fork" targetRef="t311" /><bpmn:task id="t312"><bpmn:incoming>f312</bpmn:incoming></bpmn:task><bpmn:sequenceFlow id="f312" sourceRef="fork" targetRef="t312" /><bpmn:task id="t313"><bpmn:incoming>f313</bpmn:incoming></bpmn:task><bpmn:sequenceFlow id="f313" sourceRef="fork" targetRef="t313" /><bpmn:task id="t314"><bpmn:incoming>f314</bpmn:incoming></bpmn:task><bpmn:sequenceFlow id="f314" sourceRef="fork" targetRef="t314" /><bpmn:task id="t315"><bpmn:incoming>f315</bpmn:incoming></bpmn:task><bpmn:sequenceFlow id="f315" sourceRef="fork" targetRef="t315" /><bpmn:task id="t316"><bpmn:incoming>f316</bpmn:incoming></bpmn:task><bpmn:sequenceFlow id="f316" sourceRef="fork" targetRef="t316" /><bpmn:task id="t317"><bpmn:incoming>f317</bpmn:incoming></bpmn:task><bpmn:sequenceFlow id="f317" sourceRef="fork" targetRef="t317" /><bpmn:task id="t318"><bpmn:incoming>f318</bpmn:incoming></bpmn:task><bpmn:sequenceFlow id="f318" sourceRef="fork" targetRef="t318" /><bpmn:task id="t319"><bpmn:incoming>f319</bpmn:incoming></bpmn:task><bpmn:sequenceFlow id="f319" sourceRef="fork" targetRef="t319" /><bpmn:task id="t320"><bpmn:incoming>f320</bpmn:incoming></bpmn:task><bpmn:sequenceFlow id="f320" sourceRef="fork" targetRef="t320" /><bpmn:task id="t321"><bpmn:incoming>f321</bpmn:incoming></bpmn:task><bpmn:sequenceFlow id="f321" sourceRef="fork" targetRef="t321" /><bpmn:task id="t322"><bpmn:incoming>f322</bpmn:incoming></bpmn:task><bpmn:sequenceFlow id="f322" sourceRef="fork" targetRef="t322" /><bpmn:task id="t323"><bpmn:incoming>f323</bpmn:incoming></bpmn:task><bpmn:sequenceFlow id="f323" sourceRef="fork" targetRef="t323" /><bpmn:task id="t324"><bpmn:incoming>f324</bpmn:incoming></bpmn:task><bpmn:sequenceFlow id="f324" sourceRef="fork" targetRef="t324" /><bpmn:task id="t325"><bpmn:incoming>f325</bpmn:incoming></bpmn:task><bpmn:sequenceFlow id="f325" sourceRef="fork" targetRef="t325" /><bpmn:task id="t326"><bpmn:incoming>f326</bpmn:incoming></bpmn:task><bpmn:sequenceFlow id="f326" sourceRef="fork" targetRef="t326" /><bpmn:task id="t327"><bpmn:incoming>f327</bpmn:incoming></bpmn:task><bpmn:sequenceFlow id="f327" sourceRef="fork" targetRef="t327" /><bpmn:task id="t328"><bpmn:incoming>f328</bpmn:incoming></bpmn:task><bpmn:sequenceFlow id="f328" sourceRef="fork" targetRef="t328" /><bpmn:task id="t329"><bpmn:incoming>f329</bpmn:incoming></bpmn:task><bpmn:sequenceFlow id="f329" sourceRef="fork" targetRef="t329" /><bpmn:task id="t330"><bpmn:incoming>f330</bpmn:incoming></bpmn:task><bpmn:sequenceFlow id="f330" sourceRef="fork" targetRef="t330" /><bpmn:task id="t331"><bpmn:incoming>f331</bpmn:incoming></bpmn:task><bpmn:sequenceFlow id="f331" sourceRef="fork" targetRef="t331" /><bpmn:task id="t332"><bpmn:incoming>f332</bpmn:incoming></bpmn:task><bpmn:sequenceFlow id="f332" sourceRef="fork" targetRef="t332" /><bpmn:task id="t333"><bpmn:incoming>f333</bpmn:incoming></bpmn:task><bpmn:sequenceFlow id="f333" sourceRef="fork" targetRef="t333" /><bpmn:task id="t334"><bpmn:incoming>f334</bpmn:incoming></bpmn:task><bpmn:sequenceFlow id="f334" sourceRef="fork" targetRef="t334" /><bpmn:task id="t335"><bpmn:incoming>f335</bpmn:incoming></bpmn:task><bpmn:sequenceFlow id="f335" sourceRef="fork" targetRef="t335" /><bpmn:task id="t336"><bpmn:incoming>f336</bpmn:incoming></bpmn:task><bpmn:sequenceFlow id="f336" sourceRef="fork" targetRef="t336" /><bpmn:task id="t337"><bpmn:incoming>f337</bpmn:incoming></bpmn:task><bpmn:sequenceFlow id="f337" sourceRef="fork" targetRef="t337" /><bpmn:task id="t338"><bpmn:incoming>f338</bpmn:incoming></bpmn:task><bpmn:sequenceFlow id="f338" sourceRef="fork" targetRef="t338" /><bpmn:task id="t339"><bpmn:incoming>f339</bpmn:incoming></bpmn:task><bpmn:sequenceFlow id="f339" sourceRef="fork" targetRef="t339" /><bpmn:task id="t340"><bpmn:incoming>f340</bpmn:incoming></bpmn:task><bpmn:sequenceFlow id="f340" sourceRef="fork" targetRef="t340" /><bpmn:task id="t341"><bpmn:incoming>f341</bpmn:incoming></bpmn:task><bpmn:sequenceFlow id="f341" sourceRef="fork" targetRef="t341" /><bpmn:task id="t342"><bpmn:incoming>f342</bpmn:incoming></bpmn:task><bpmn:sequenceFlow id="f342" sourceRef="fork" targetRef="t342" /><bpmn:task id="t343"><bpmn:incoming>f343</bpmn:incoming></bpmn:task><bpmn:sequenceFlow id="f343" sourceRef="fork" targetRef="t343" /><bpmn:task id="t344"><bpmn:incoming>f344</bpmn:incoming></bpmn:task><bpmn:sequenceFlow id="f344" sourceRef="fork" targetRef="t344" /><bpmn:task id="t345"><bpmn:incoming>f345</bpmn:incoming></bpmn:task><bpmn:sequenceFlow id="f345" sourceRef="fork" targetRef="t345" /><bpmn:task id="t346"><bpmn:incoming>f346</bpmn:incoming></bpmn:task><bpmn:sequenceFlow id="f346" sourceRef="fork" targetRef="t346" /><bpmn:task id="t347"><bpmn:incoming>f347</bpmn:incoming></bpmn:task><bpmn:sequenceFlow id="f347" sourceRef="fork" targetRef="t347" /><bpmn:task id="t348"><bpmn:incoming>f348</bpmn:incoming></bpmn:task><bpmn:sequenceFlow id="f348" sourceRef="fork" targetRef="t348" /><bpmn:task id="t349"><bpmn:incoming>f349</bpmn:incoming></bpmn:task><bpmn:sequenceFlow id="f349" sourceRef="fork" targetRef="t349" /><bpmn:task id="t350"><bpmn:incoming>f350</bpmn:incoming></bpmn:task><bpmn:sequenceFlow id="f350" sourceRef="fork" targetRef="t350" /><bpmn:task id="t351"><bpmn:incoming>f351</bpmn:incoming></bpmn:task><bpmn:sequenceFlow id="f351" sourceRef="fork" targetRef="t351" /><bpmn:task id="t352"><bpmn:incoming>f352</bpmn:incoming></bpmn:task><bpmn:sequenceFlow id="f352" sourceRef="fork" targetRef="t352" /><bpmn:task id="t353"><bpmn:incoming>f353</bpmn:incoming></bpmn:task><bpmn:sequenceFlow id="f353" sourceRef="fork" targetRef="t353" /><bpmn:task id="t354"><bpmn:incoming>f354</bpmn:incoming></bpmn:task><bpmn:sequenceFlow id="f354" sourceRef="fork" targetRef="t354" /><bpmn:task id="t355"><bpmn:incoming>f355</bpmn:incoming></bpmn:task><bpmn:sequenceFlow id="f355" sourceRef="fork" targetRef="t355" /><bpmn:task id="t356"><bpmn:incoming>f356</bpmn:incoming></bpmn:task><bpmn:sequenceFlow id="f356" sourceRef="fork" targetRef="t356" /><bpmn:task id="t357"><bpmn:incoming>f357</bpmn:incoming></bpmn:task><bpmn:sequenceFlow id="f357" sourceRef="fork" targetRef="t357" /><bpmn:task id="t358"><bpmn:incoming>f358</bpmn:incoming></bpmn:task><bpmn:sequenceFlow id="f358" sourceRef="fork" targetRef="t358" /><bpmn:task id="t359"><bpmn:incoming>f359</bpmn:incoming></bpmn:task><bpmn:sequenceFlow id="f359" sourceRef="fork" targetRef="t359" /><bpmn:task id="t360"><bpmn:incoming>f360</bpmn:incoming></bpmn:task><bpmn:sequenceFlow id="f360" sourceRef="fork" targetRef="t360" /><bpmn:task id="t361"><bpmn:incoming>f361</bpmn:incoming></bpmn:task><bpmn:sequenceFlow id="f361" sourceRef="fork" targetRef="t361" /><bpmn:task id="t362"><bpmn:incoming>f362</bpmn:incoming></bpmn:task><bpmn:sequenceFlow id="f362" sourceRef="fork" targetRef="t362" /><bpmn:task id="t363"><bpmn:incoming>f363</bpmn:incoming></bpmn:task><bpmn:sequenceFlow id="f363" sourceRef="fork" targetRef="t363" /><bpmn:task id="t364"><bpmn:incoming>f364</bpmn:incoming></bpmn:task><bpmn:sequenceFlow id="f364" sourceRef="fork" targetRef="t364" /><bpmn:task id="t365"><bpmn:incoming>f365</bpmn:incoming></bpmn:task><bpmn:sequenceFlow id="f365" sourceRef="fork" targetRef="t365" /><bpmn:task id="t366"><bpmn:incoming>f366</bpmn:incoming></bpmn:task><bpmn:sequenceFlow id="f366" sourceRef="fork" targetRef="t366" /><bpmn:task id="t367"><bpmn:incoming>f367</bpmn:incoming></bpmn:task><bpmn:sequenceFlow id="f367" sourceRef="fork" targetRef="t367" /><bpmn:task id="t368"><bpmn:incoming>f368</bpmn:incoming></bpmn:task><bpmn:sequenceFlow id="f368" sourceRef="fork" targetRef="t368" /><bpmn:task id="t369"><bpmn:incoming>f369</bpmn:incoming></bpmn:task><bpmn:sequenceFlow id="f369" sourceRef="fork" targetRef="t369" /><bpmn:task id="t370"><bpmn:incoming>f370</bpmn:incoming></bpmn:task><bpmn:sequenceFlow id="f370" sourceRef="fork" targetRef="t370" /><bpmn:task id="t371"><bpmn:incoming>f371</bpmn:incoming></bpmn:task><bpmn:sequenceFlow id="f371" sourceRef="fork" targetRef="t371" /><bpmn:task id="t372"><bpmn:incoming>f372</bpmn:incoming></bpmn:task><bpmn:sequenceFlow id="f372" sourceRef="fork" targetRef="t372" /><bpmn:task id="t373"><bpmn:incoming>f373</bpmn:incoming></bpmn:task><bpmn:sequenceFlow id="f373" sourceRef="fork" targetRef="t373" /><bpmn:task id="t374"><bpmn:incoming>f374</bpmn:incoming></bpmn:task><bpmn:sequenceFlow id="f374" sourceRef="fork" targetRef="t374" /><bpmn:task id="t375"><bpmn:incoming>f375</bpmn:incoming></bpmn:task><bpmn:sequenceFlow id="f375" sourceRef="fork" targetRef="t375" /><bpmn:task id="t376"><bpmn:incoming>f376</bpmn:incoming></bpmn:task><bpmn:sequenceFlow id="f376" sourceRef="fork" targetRef="t376" /><bpmn:task id="t377"><bpmn:incoming>f377</bpmn:incoming></bpmn:task><bpmn:sequenceFlow id="f377" sourceRef="fork" targetRef="t377" /><bpmn:task id="t378"><bpmn:incoming>f378</bpmn:incoming></bpmn:task><bpmn:sequenceFlow id="f378" sourceRef="fork" targetRef="t378" /><bpmn:task id="t379"><bpmn:incoming>f379</bpmn:incoming></bpmn:task><bpmn:sequenceFlow id="f379" sourceRef="fork" targetRef="t379" /><bpmn:task id="t380"><bpmn:incoming>f380</bpmn:incoming></bpmn:task><bpmn:sequenceFlow id="f380" sourceRef="fork" targetRef="t380" /><bpmn:task id="t381"><bpmn:incoming>f381</bpmn:incoming></bpmn:task><bpmn:sequenceFlow id="f381" sourceRef="fork" targetRef="t381" /><bpmn:task id="t382"><bpmn:incoming>f382</bpmn:incoming></bpmn:task><bpmn:sequenceFlow id="f382" sourceRef="fork" targetRef="t382" /><bpmn:task id="t383"><bpmn:incoming>f383</bpmn:incoming></bpmn:task><bpmn:sequenceFlow id="f383" sourceRef="fork" targetRef="t383" /><bpmn:task id="t384"><bpmn:incoming>f384</bpmn:incoming></bpmn:task><bpmn:sequenceFlow id="f384" sourceRef="fork" targetRef="t384" /><bpmn:task id="t385"><bpmn:incoming>f385</bpmn:incoming></bpmn:task><bpmn:sequenceFlow id="f385" sourceRef="fork" targetRef="t385" /><bpmn:task id="t386"><bpmn:incoming>f386</bpmn:incoming></bpmn:task><bpmn:sequenceFlow id="f386" sourceRef="fork" targetRef="t386" /><bpmn:task id="t387"><bpmn:incoming>f387</bpmn:incoming></bpmn:task><bpmn:sequenceFlow id="f387" sourceRef="fork" targetRef="t387" /><bpmn:task id="t388"><bpmn:incoming>f388</bpmn:incoming></bpmn:task><bpmn:sequenceFlow id="f388" sourceRef="fork" targetRef="t388" /><bpmn:task id="t389"><bpmn:incoming>f389</bpmn:incoming></bpmn:task><bpmn:sequenceFlow id="f389" sourceRef="fork" targetRef="t389" /><bpmn:task id="t390"><bpmn:incoming>f390</bpmn:incoming></bpmn:task><bpmn:sequenceFlow id="f390" sourceRef="fork" targetRef="t390" /><bpmn:task id="t391"><bpmn:incoming>f391</bpmn:incoming></bpmn:task><bpmn:sequenceFlow id="f391" sourceRef="fork" targetRef="t391" /><bpmn:task id="t392"><bpmn:incoming>f392</bpmn:incoming></bpmn:task><bpmn:sequenceFlow id="f392" sourceRef="fork" targetRef="t392" /><bpmn:task id="t393"><bpmn:incoming>f393</bpmn:incoming></bpmn:task><bpmn:sequenceFlow id="f393" sourceRef="fork" targetRef="t393" /><bpmn:task id="t394"><bpmn:incoming>f394</bpmn:incoming></bpmn:task><bpmn:sequenceFlow id="f394" sourceRef="fork" targetRef="t394" /><bpmn:task id="t395"><bpmn:incoming>f395</bpmn:incoming></bpmn:task><bpmn:sequenceFlow id="f395" sourceRef="fork" targetRef="t395" /><bpmn:task id="t396"><bpmn:incoming>f396</bpmn:incoming></bpmn:task><bpmn:sequenceFlow id="f396" sourceRef="fork" targetRef="t396" /><bpmn:task id="t397"><bpmn:incoming>f397</bpmn:incoming></bpmn:task><bpmn:sequenceFlow id="f397" sourceRef="fork" targetRef="t397" /><bpmn:task id="t398"><bpmn:incoming>f398</bpmn:incoming></bpmn:task><bpmn:sequenceFlow id="f398" sourceRef="fork" targetRef="t398" /><bpmn:task id="t399"><bpmn:incoming>f399</bpmn:incoming></bpmn:task><bpmn:sequenceFlow id="f399" sourceRef="fork" targetRef="t399" />
+  </bpmn:process>
+</bpmn:definitions>` + "`" + `
+
+func runCancel(t *testing.T, gw, cond string) {
+	var defs schema.Definitions
+	src := strings.ReplaceAll(strings.ReplaceAll(igXML, "USEGW", gw), "GWCOND", cond)
+	if err := xml.Unmarshal([]byte(src), &defs); err != nil {
+		t.Fatal(err)
+	}
+	ctx, cancel := context.WithCancel(context.Background())
+	defer cancel()
+	tracer := tracing.NewTracer(ctx)
+	traces := tracer.SubscribeChannel(make(chan tracing.ITrace, 65536))
+	proc, err := bpmn.NewEngine().NewProcess(&defs, bpmn.WithTracer(tracer), bpmn.WithContext(ctx))
+	if err != nil {
+		t.Fatal(err)
+	}
+	if err := proc.StartAll(ctx); err != nil {
+		t.Fatal(err)
+	}
+	pending := 0
+	deadline := time.After(5 * time.Second)
+	for pending < 400 {
+		select {
+		case tr := <-traces:
+			if _, ok := tracing.Unwrap(tr).(bpmn.TaskTrace); ok {
+				pending++
+			}
+		case <-deadline:
+			t.Fatalf("only %d tasks pending", pending)
+		}
+	}
+	go func() { for range traces {} }()
+	time.Sleep(100 * time.Millisecond)
+	cancel()
+	select {
+	case <-tracer.Done():
+	case <-time.After(5 * time.Second):
+		t.Fatalf("%s: the tracer did not terminate within 5s of the cancellation", gw)
+	}
+}
+
+func TestGocvReplay(t *testing.T) {
+	runCancel(t, "inclusiveGateway", ` + "`" + `<bpmn:conditionExpression xsi:type="bpmn:tFormalExpression" language="https://github.com/expr-lang/expr">true</bpmn:conditionExpression>` + "`" + `)
+}
+`
